@@ -74,6 +74,12 @@ var reviewedND = map[string][2]string{
 	"clock:(*core.VMExecutor).Execute#2":                              {"log-only", "elapsed time for the performance log"},
 }
 
+// trieLoopCallees: what one iteration of a reviewed trie-feeding map range may call.
+var trieLoopCallees = map[string][]string{
+	"(*storage/account.AccountDB).Finalise":       {"(*sync.Map).Load", "(*storage/account.accountObject).empty", "(*storage/account.AccountDB).deleteAccountObject", "(*storage/account.accountObject).updateRoot", "(*storage/account.AccountDB).updateAccountObject"},
+	"(*storage/account.accountObject).updateTrie": {"(*storage/account.accountObject).setError", ".TryDelete", ".TryUpdate"},
+}
+
 // storeReads: reviewed reads of the block/group stores from inside the cone
 // (caller → accessor); anything else consults process-local chain state.
 var storeReads = map[string]string{
@@ -308,6 +314,32 @@ func classHolds(c *eng.Ctx, h eng.NDHit, class string) string {
 		}
 		if lp.StrConcat {
 			return "the loop concatenates strings in map order"
+		}
+		if class == "trie-order-independent" {
+			// the trie absorbs the order in which entries are fed to it — provided an iteration does nothing else:
+			// every call in the loop body is one of the reviewed per-entry feeders of that loop
+			allowed := trieLoopCallees[eng.FuncName(h.Fn)]
+			for b := range lp.Body {
+				for _, in := range b.Instrs {
+					call, isCall := in.(ssa.CallInstruction)
+					if !isCall {
+						continue
+					}
+					nm := eng.CallName(call.Common())
+					if strings.HasPrefix(nm, "builtin:") {
+						continue
+					}
+					ok := false
+					for _, a := range allowed {
+						if nm == a || strings.HasSuffix(nm, a) {
+							ok = true
+						}
+					}
+					if !ok {
+						return "an iteration now also calls " + nm + " (" + c.Pos(in.Pos()) + "), which is not one of the reviewed per-entry trie feeders of this loop: if it touches anything but the entry being visited (another account's storage, a counter), the result depends on which entries were visited before"
+					}
+				}
+			}
 		}
 		if class != "trie-order-independent" {
 			if m := lp.CarriedCond(); m != "" {
